@@ -9,7 +9,7 @@ ASSUMPTIONS = [
     "a pre-serialised string with raw line breaks may be re-encoded onto one line or dropped; a carriage return that stays inside a line is tolerated, a line feed is not",
 ]
 STUBS = ["FakeProcess/FakeStdin", "async-iterator outgoing stream"]
-OUTSIDE = ["content fidelity beyond the corpus (compiled codecs)", "sequences longer than 2 (quick) / 3 (thorough) items", "pre-serialised strings longer than 3 characters in the symbolic family"]
+OUTSIDE = ["content fidelity beyond the corpus (compiled codecs)", "sequences longer than 2 (quick) / 3 (thorough) items", "payloads longer than the corpus entries except for the size family (lengths from source constants and environment sizes <= 70000 / 140000, fill patterns concrete)", "pre-serialised strings longer than 3 characters in the symbolic family"]
 
 ALL = list(range(15))
 
@@ -39,6 +39,15 @@ def obligations(tier, ctx):
                           pre=[f"len(raw) == {ln}", f"all(c in '{alpha}' for c in raw)"],
                           call=f"H.raw_symbolic(raw, {before}, {after})", backend="P", timeout=400, family="pre-serialised string over an 8-character alphabet"))
     obs.append(Ob(name="stdin_failure", params=[("x", "int")], pre=["x == 0"], call="H.stdin_failure((0, 2, 3))", backend="P", timeout=60, family="broken pipe"))
+    # size dimension: payload lengths straddling the integer constants of the source tree and environment sizes
+    from symcheck import consts
+    ENV_SIZES = (4096, 8192, 65536, 131072)
+    lim = 70000 if tier == "quick" else 140000
+    nsz = len(consts.size_cases(lim, extra=ENV_SIZES))
+    for kind in ((0, 3) if tier == "quick" else (0, 1, 2, 3, 8, 9)):
+        for pat in ((4,) if tier == "quick" else (0, 1, 2, 4, 5)):
+            obs.append(Ob(name=f"writer_long_{kind}_p{pat}", params=[("k", "int")], pre=[f"0 <= k < {nsz}"], call=f"H.writer_long({kind}, k, {pat}, {lim})", backend="P", timeout=600,
+                          family="size: payload of c-1, c, c+1 characters for the integer constants c of the source and environment sizes (4096, 8192, 65536, 131072)"))
     from symcheck.runner import mirror
     obs += mirror(obs, r"^writer_(0|1|9|10|12|14|0_1|9_0|12_10)$", "F", limit=(4 if tier == "quick" else None))
     return obs
